@@ -440,6 +440,7 @@ func (e *Enc) finishRoots(fr *Frame) {
 		}
 	}
 	pre = append(pre, vc.unfoldInstances()...)
+	pre = append(pre, vc.classAxioms...)
 	vc.rootAssum = pre
 }
 
